@@ -31,6 +31,8 @@ CONSTANTS
                        \* with the empty id, an item with the empty id that was removed)
   IncOf(_),            \* incarnation number the host gives the key with a guid (0: none)
   KeepHigherIncarnation, \* TRUE: a design variant in which the key in memory is not replaced by one of a lower incarnation
+  ReuseUnattested,     \* TRUE: a design variant that keeps an acquired, not yet attested key across polls and goes
+                       \* straight to the attestation with it on the next poll (no store, no read-back again)
   StateEarly,          \* TRUE: a design variant that stores the reported state before the key step of a poll
   InitScenarios,       \* subset of {"fresh", "haskey", "unreadable", "rotated"}
   InitDocs,            \* status documents the host may start with
@@ -111,7 +113,8 @@ C08_NoCorruptFinalNameOn(f, damaged) ==
 \* ---- initial states -----------------------------------------------------------------------------
 G1 == CHOOSE g \in Guids : TRUE
 NoFiles == [g \in Guids |-> "none"]
-MemInit == [key |-> "none", state |-> UnknownState, ruleId |-> [e \in Eps |-> ""], rules |-> NoRules]
+MemInit == [key |-> "none", state |-> UnknownState, ruleId |-> [e \in Eps |-> ""], rules |-> NoRules,
+            pending |-> "none"]     \* pending: loop-local across polls, used only by the ReuseUnattested variant
 DummyDoc == [ver |-> "1.0", chan |-> "disabled", hasRules |-> FALSE, rules |-> NoRules]
 LocInit == [status |-> [doc |-> DummyDoc, named |-> "none"], key |-> "none", rulesChanged |-> FALSE, changed |-> FALSE]
 PolicyInit == [e \in Eps |-> "unset"]
@@ -221,7 +224,7 @@ FetchLocal ==    \* look for <named guid>.key in the key directory, read and par
 
 UpdateKeyLocal ==
   /\ pc = "UpdateKeyLocal"
-  /\ mem' = [mem EXCEPT !.key = Published(loc.key)]
+  /\ mem' = [mem EXCEPT !.key = Published(loc.key), !.pending = "none"]
   /\ pc' = "UpdChannelState" /\ Did("UpdateKeyMem", "local", loc.key)
   /\ UNCHANGED <<host, fs, loc, policy, gh>>
 
@@ -232,11 +235,19 @@ Acquire(o, g) ==
         /\ host' = [host EXCEPT !.issued = @ \cup {g}]
         /\ loc' = [loc EXCEPT !.key = g]
         /\ gh' = [gh EXCEPT !.readback = @ \ {g}]
+        /\ mem' = IF ReuseUnattested THEN [mem EXCEPT !.pending = g] ELSE mem
         /\ pc' = "StoreCreateTmp"
      \/ /\ o \in {"err", "malformed"} /\ g = "none" /\ Fault /\ Faulted
-        /\ pc' = "Sleep" /\ UNCHANGED <<host, loc>>
+        /\ pc' = "Sleep" /\ UNCHANGED <<host, loc, mem>>
+  /\ (ReuseUnattested => mem.pending = "none")
   /\ Did("Acquire", o, g)
-  /\ UNCHANGED <<fs, mem, policy>>
+  /\ UNCHANGED <<fs, policy>>
+
+ReusePending ==  \* (variant) the key acquired on an earlier poll is taken instead of a new one; "it went to the disk then"
+  /\ pc = "Acquire" /\ ReuseUnattested /\ mem.pending # "none"
+  /\ loc' = [loc EXCEPT !.key = mem.pending]
+  /\ pc' = "Attest" /\ Did("ReusePending", "-", mem.pending)
+  /\ UNCHANGED <<host, fs, mem, policy, gh>>
 
 \* json_write_to_file: create <guid>.tmp, write the body, rename onto <guid>.key
 StoreCreateTmp(o) ==
@@ -246,24 +257,31 @@ StoreCreateTmp(o) ==
   /\ Did("StoreCreateTmp", o, loc.key)
   /\ UNCHANGED <<host, loc, mem, policy>>
 
-StoreWriteTmp ==
+StoreWriteTmp(o) ==
   /\ pc = "StoreWriteTmp"
-  /\ fs' = [fs EXCEPT !.tmp[loc.key] = "key"]
-  /\ pc' = "StoreRename" /\ Did("StoreWriteTmp", "-", loc.key)
-  /\ UNCHANGED <<host, loc, mem, policy, gh>>
-
-StoreRename ==
-  /\ pc = "StoreRename"
-  /\ fs' = [fs EXCEPT !.final[loc.key] = fs.tmp[loc.key], !.tmp[loc.key] = "none"]
-  /\ gh' = [gh EXCEPT !.damaged = @ \ {loc.key}]
-  /\ pc' = "ReadBack" /\ Did("StoreRename", "-", loc.key)
+  /\ \/ /\ o = "ok" /\ fs' = [fs EXCEPT !.tmp[loc.key] = "key"] /\ pc' = "StoreRename" /\ UNCHANGED gh
+     \/ /\ o = "err" /\ FsFaults /\ Fault /\ Faulted /\ pc' = "Sleep" /\ UNCHANGED fs     \* the temporary file stays partial
+  /\ Did("StoreWriteTmp", o, loc.key)
   /\ UNCHANGED <<host, loc, mem, policy>>
 
-ReadBack ==      \* check_key: read <guid>.key again and compare guid and key value
+StoreRename(o) ==
+  /\ pc = "StoreRename"
+  /\ \/ /\ o = "ok"
+        /\ fs' = [fs EXCEPT !.final[loc.key] = fs.tmp[loc.key], !.tmp[loc.key] = "none"]
+        /\ gh' = [gh EXCEPT !.damaged = @ \ {loc.key}]
+        /\ pc' = "ReadBack"
+     \/ /\ o = "err" /\ FsFaults /\ Fault /\ Faulted /\ pc' = "Sleep" /\ UNCHANGED fs
+  /\ Did("StoreRename", o, loc.key)
+  /\ UNCHANGED <<host, loc, mem, policy>>
+
+\* check_key: read <guid>.key again and compare guid and key value.  fail: the file cannot be read this time
+ReadBack(o) ==
   /\ pc = "ReadBack"
-  /\ IF fs.final[loc.key] = "key"
-     THEN gh' = [gh EXCEPT !.readback = @ \cup {loc.key}] /\ pc' = "Attest" /\ Did("ReadBack", "ok", loc.key)
-     ELSE gh' = [gh EXCEPT !.clean = FALSE] /\ pc' = "Sleep" /\ Did("ReadBack", "mismatch", loc.key)
+  /\ \/ /\ o = "ok"
+        /\ IF fs.final[loc.key] = "key"
+           THEN gh' = [gh EXCEPT !.readback = @ \cup {loc.key}] /\ pc' = "Attest" /\ Did("ReadBack", "ok", loc.key)
+           ELSE gh' = [gh EXCEPT !.clean = FALSE] /\ pc' = "Sleep" /\ Did("ReadBack", "mismatch", loc.key)
+     \/ /\ o = "fail" /\ FsFaults /\ Fault /\ Faulted /\ pc' = "Sleep" /\ Did("ReadBack", "fail", loc.key)
   /\ UNCHANGED <<host, fs, loc, mem, policy>>
 
 \* POST /secure-channel/key/{guid}/key-attestation.  ok: the host latches and says so; lost: the host latches
@@ -280,7 +298,7 @@ Attest(o) ==
 
 UpdateKeyMem ==
   /\ pc = "UpdateKeyMem"
-  /\ mem' = [mem EXCEPT !.key = Published(loc.key)]
+  /\ mem' = [mem EXCEPT !.key = Published(loc.key), !.pending = "none"]
   /\ pc' = "UpdChannelState" /\ Did("UpdateKeyMem", "attested", loc.key)
   /\ UNCHANGED <<host, fs, loc, policy, gh>>
 
@@ -323,11 +341,12 @@ Sleep(notified) ==
 
 AgentInternal ==
   \/ MkKeyDir \/ AclKeyDir \/ DumpRules \/ NeedKey \/ FetchLocal \/ UpdateKeyLocal
-  \/ StoreWriteTmp \/ StoreRename \/ ReadBack \/ UpdateKeyMem \/ UpdChannelState \/ ClearKey
+  \/ ReusePending \/ UpdateKeyMem \/ UpdChannelState \/ ClearKey
   \/ \E ep \in Eps : UpdRuleId(ep) \/ SetRules(ep) \/ UpdPolicy(ep)
 
 AgentOk ==       \* the agent's steps when nothing fails (used for fairness)
   \/ AgentInternal \/ GetStatus("ok") \/ (\E g \in Guids : Acquire("ok", g)) \/ StoreCreateTmp("ok")
+  \/ StoreWriteTmp("ok") \/ StoreRename("ok") \/ ReadBack("ok")
   \/ Attest("ok") \/ Sleep(FALSE)
 
 \* ---- the environment -------------------------------------------------------------------------------
@@ -394,7 +413,8 @@ Next ==
   \/ AgentInternal
   \/ \E o \in {"ok", "fail", "invalid"} : GetStatus(o)
   \/ \E o \in {"ok", "err", "malformed"}, g \in Guids \cup {"none"} : Acquire(o, g)
-  \/ \E o \in {"ok", "err"} : StoreCreateTmp(o)
+  \/ \E o \in {"ok", "err"} : StoreCreateTmp(o) \/ StoreWriteTmp(o) \/ StoreRename(o)
+  \/ \E o \in {"ok", "fail"} : ReadBack(o)
   \/ \E o \in {"ok", "err", "lost"} : Attest(o)
   \/ \E n \in BOOLEAN : Sleep(n)
   \/ Reconfigure \/ Rotate \/ Relatch \/ Crash \/ Damage \/ Restart
